@@ -395,6 +395,12 @@ func leastConnsBalance(backs BackendList) (BackendList, error) {
 		}
 	}
 
+	// availability and connection counts are not guarded by the balancer's
+	// mutex: they may have changed since the first pass
+	if len(candidates) == 0 {
+		return nil, fmt.Errorf("rr_bal:all backend is down")
+	}
+
 	return candidates, nil
 }
 
